@@ -245,6 +245,16 @@ func (r *Regexp) ReflectTo(c px.Context, dest reflect.Value) {
 	dest.Set(rv)
 }
 
+// CanSerializeAsString and SerializationString make a Regexp value travel as rich data (the pattern
+// string, which the Regexp constructor takes) instead of degrading to the String '/pattern/'.
+func (r *Regexp) CanSerializeAsString() bool {
+	return true
+}
+
+func (r *Regexp) SerializationString() string {
+	return r.pattern.String()
+}
+
 func (r *Regexp) String() string {
 	return px.ToString2(r, None)
 }
